@@ -116,6 +116,54 @@ pub fn run_case(case: &Case, stats: &mut Stats) -> CaseResult {
                 }
             }
         }
+        // every callback fault of this history: the k-th call of a caller-supplied fmt sink / iterator fails or panics
+        for (k, &calls) in o1.callbacks.iter().enumerate() {
+            for j in 1..=calls.min(if cfg!(miri) { 2 } else { 12 }) {
+                for kind in [FaultKind::CbErr, FaultKind::CbPanic] {
+                    let mut c = case.clone();
+                    c.enumerate = false;
+                    c.ops[k].fault = Some(Fault { kind, k: j });
+                    res.fault_points += 1;
+                    let o = one(&c, case.cfg.fill, stats);
+                    res.executions += 1;
+                    if o.harness_error.is_some() || o.violation.is_some() {
+                        res.harness_error = o.harness_error;
+                        res.violation = o.violation;
+                        c.fill2 = c.cfg.fill;
+                        res.failing = Some(c);
+                        return res;
+                    }
+                }
+            }
+        }
+        // a sample of fault pairs: a second refusal in a later step, while the first one's recovery is what the
+        // history continues from (event counts of the fault-free run; a count that no longer exists does not fire)
+        let mut prng = Rng::new(case.garbage_seed ^ 0xFA17_FA17);
+        let sites: Vec<(usize, u32)> = o1.fallible.iter().enumerate().flat_map(|(k, &e)| (1..=e.min(6)).map(move |j| (k, j))).collect();
+        if sites.len() >= 2 {
+            let pairs = if cfg!(miri) { 2 } else { 48.min(sites.len() * (sites.len() - 1) / 2) };
+            for _ in 0..pairs {
+                let (a, b) = (prng.below(sites.len() as u64) as usize, prng.below(sites.len() as u64) as usize);
+                let ((k1, j1), (k2, j2)) = (sites[a.min(b)], sites[a.max(b)]);
+                if k1 == k2 {
+                    continue;
+                }
+                let mut c = case.clone();
+                c.enumerate = false;
+                c.ops[k1].fault = Some(Fault { kind: FaultKind::Alloc, k: j1 });
+                c.ops[k2].fault = Some(Fault { kind: FaultKind::Alloc, k: j2 });
+                res.fault_points += 1;
+                let o = one(&c, case.cfg.fill, stats);
+                res.executions += 1;
+                if o.harness_error.is_some() || o.violation.is_some() {
+                    res.harness_error = o.harness_error;
+                    res.violation = o.violation;
+                    c.fill2 = c.cfg.fill;
+                    res.failing = Some(c);
+                    return res;
+                }
+            }
+        }
     }
     res
 }
